@@ -294,6 +294,15 @@ func (c *Client) validateVirtualChannelFundingProposal(
 		return errors.New("invalid allocation")
 	}
 
+	// Assert that the other sub-allocations stay as they are and exactly the
+	// expected one is added.
+	numLocked := len(ch.state().Locked)
+	if len(prop.State.Locked) != numLocked+1 ||
+		channel.SubAllocsAssertEqual(ch.state().Locked, prop.State.Locked[:numLocked]) != nil ||
+		prop.State.Locked[numLocked].Equal(expected) != nil {
+		return errors.New("invalid sub-allocations")
+	}
+
 	// Validate allocation.
 
 	// Assert equal assets.
@@ -310,6 +319,11 @@ func (c *Client) validateVirtualChannelFundingProposal(
 	virtual := transformBalances(prop.Initial.State.Balances, ch.state().NumParts(), subAlloc.IndexMap)
 	if err := ch.state().AssertGreaterOrEqual(virtual); err != nil {
 		return errors.WithMessage(err, "insufficient funds")
+	}
+
+	// Assert that each participant is debited its own share.
+	if !ch.state().Balances.Sub(virtual).Equal(prop.State.Balances) {
+		return errors.New("invalid balances")
 	}
 
 	return nil
